@@ -3170,9 +3170,11 @@ class NetCDFRead(IORead):
                 bounds_ncvar, bounds_ncvar
             )
 
-        if bounds_ncvar is None:
+        if bounds_ncvar not in g["variable_attributes"]:
             # --------------------------------------------------------
-            # Parametric Z coordinate does not have bounds
+            # Parametric Z coordinate does not have bounds (or its
+            # bounds variable is not in the file, which is reported
+            # when the coordinate construct is created)
             # --------------------------------------------------------
             for term in g["formula_terms"][coord_ncvar]["coord"]:
                 g["formula_terms"][coord_ncvar]["bounds"][term] = None
@@ -3258,6 +3260,11 @@ class NetCDFRead(IORead):
                     parent_ncvar = g["formula_terms"][coord_ncvar]["coord"][
                         term
                     ]
+                    if parent_ncvar is None:
+                        # The corresponding formula terms variable of
+                        # the coordinate could not be mapped (which
+                        # has already been reported)
+                        continue
 
                     d_ncdims = g["variable_dimensions"][parent_ncvar]
                     dimensions = g["variable_dimensions"][ncvar]
@@ -3335,6 +3342,11 @@ class NetCDFRead(IORead):
                     "coord"
                 ].items():
                     g["formula_terms"][coord_ncvar]["bounds"][term] = None
+
+                    if ncvar is None:
+                        # The formula terms variable could not be
+                        # mapped (which has already been reported)
+                        continue
 
                     if z_ncdim not in self._ncdimensions(ncvar):
                         g["formula_terms"][coord_ncvar]["bounds"][term] = ncvar
@@ -4337,13 +4349,15 @@ class NetCDFRead(IORead):
                 # attribute
                 continue
 
-            if coord_ncvar not in g["formula_terms"]:
-                self._check_formula_terms(
-                    field_ncvar,
-                    coord_ncvar,
-                    formula_terms,
-                    z_ncdim=g["variable_dimensions"][coord_ncvar][0],
-                )
+            # Check the formula terms for every parent variable, so
+            # that any problems are reported for each of them, and not
+            # only for the first one that is processed
+            self._check_formula_terms(
+                field_ncvar,
+                coord_ncvar,
+                formula_terms,
+                z_ncdim=g["variable_dimensions"][coord_ncvar][0],
+            )
 
             ok = True
             domain_ancillaries = []
